@@ -50,6 +50,23 @@ def js_round(x: float, ndigits: int = 0) -> float:
             return math.ceil(x * multiplier - 0.5) / multiplier
 
 
+def js_mod(a: float, b: float) -> float:
+    """JavaScript % : truncated remainder, the result takes the sign of the dividend."""
+    if type(a) is int and type(b) is int and a != 0 and b != 0:
+        r = abs(a) % abs(b)  # exact for integers
+        if a < 0:
+            return -r if r else -0.0
+        return r
+    a = float(a)
+    b = float(b)
+    if math.isnan(a) or math.isnan(b) or math.isinf(a) or b == 0:
+        return float("nan")
+    if math.isinf(b) or a == 0:
+        return a
+    r = math.fmod(a, b)
+    return math.copysign(0.0, a) if r == 0 else r
+
+
 @dataclass
 class ClosureCell:
     """A cell for closure variable - allows sharing between scopes."""
@@ -445,10 +462,7 @@ class VM:
             a = self.stack.pop()
             b_num = to_number(b)
             a_num = to_number(a)
-            if b_num == 0:
-                self.stack.append(float("nan"))
-            else:
-                self.stack.append(a_num % b_num)
+            self.stack.append(js_mod(a_num, b_num))
 
         elif op == OpCode.POW:
             b = self.stack.pop()
